@@ -121,6 +121,37 @@ fn day(sink: &mut Sink, rng: &mut Rng, d: &SolarDay) {
     let st = x.get_hide_heaven_stem().get_heaven_stem();
     both!(sink, "HideHeavenStemDay", &[st.get_index() as i64, st.get_element().get_index() as i64, x.get_day_index() as i64], &x);
   }
+  if let Some(x) = catch_iso(|| d.get_phenology_day()) {
+    both!(sink, "PhenologyDay", &[x.get_phenology().get_index() as i64, x.get_day_index() as i64], &x);
+  }
+  if let Some(x) = catch_iso(|| d.get_hide_heaven_stem_day()) {
+    let hh = x.get_hide_heaven_stem();
+    both!(sink, "HideHeavenStem", &[hh.get_heaven_stem().get_index() as i64], &hh);
+  }
+  if let Some(Some(hd)) = catch_iso(|| d.get_legal_holiday()) {
+    let nm = hd.get_name();
+    let idx = tyme4rs::tyme::holiday::LEGAL_HOLIDAY_NAMES.iter().position(|n| *n == nm).map(|i| i as i64).unwrap_or(-1);
+    let hdd = hd.get_day();
+    both!(sink, "LegalHoliday", &[hdd.get_year() as i64, hdd.get_month() as i64, hdd.get_day() as i64, hd.is_work() as i64, idx], &hd);
+  }
+  if let Some(sdv) = catch_iso(|| d.get_sixty_cycle_day()) {
+    let fd = sdv.get_fetus_day();
+    let f = [fd.get_fetus_heaven_stem().get_index() as i64, fd.get_fetus_earth_branch().get_index() as i64, if fd.get_side() == tyme4rs::tyme::enums::Side::IN { 0 } else { 1 }, fd.get_direction().get_index() as i64];
+    nm(sink, "FetusDay", &f, catch(|| fd.to_string()), catch(|| fd.to_string())); // FetusDay::get_name is private: the display string is its name
+  }
+  if y >= 2 && y <= 9880 && rng.range(0, 7) == 0 {
+    if let Some(cl) = catch_iso(|| tyme4rs::tyme::eightchar::ChildLimit::from_solar_time(t, tyme4rs::tyme::enums::Gender::MAN)) {
+      let k = rng.range(0, 8) as isize;
+      if let Some(df) = catch_iso(|| cl.get_start_decade_fortune().next(k)) {
+        nm(sink, "DecadeFortune", &[df.get_sixty_cycle().get_index() as i64], catch(|| df.get_name()), catch(|| df.get_name()));
+      }
+      if let Some(fo) = catch_iso(|| cl.get_start_fortune().next(k)) {
+        nm(sink, "Fortune", &[fo.get_sixty_cycle().get_index() as i64], catch(|| fo.get_name()), catch(|| fo.get_name()));
+      }
+    }
+    let ks = tyme4rs::tyme::lunar::LunarYear::from_year(y as isize).get_kitchen_god_steed();
+    both!(sink, "KitchenGodSteed", &[y], &ks);
+  }
   if let Some(Some(f)) = catch_iso(|| d.get_festival()) {
     let fd = f.get_day();
     both!(sink, "SolarFestival", &[fd.get_year() as i64, fd.get_month() as i64, fd.get_day() as i64, f.get_index() as i64], &f);
@@ -190,6 +221,17 @@ pub fn run(ctx: &Ctx) -> usize {
     for (m, dd) in [(6i64, 5i64), (7, 10), (8, 15), (12, 25), (1, 20)] {
       for k in 0..12 {
         if let Some(d) = catch(|| SolarDay::from_ymd(y as isize, m as usize, dd as usize).next(k * 4)) {
+          day(&mut sink, &mut rng, &d);
+        }
+      }
+    }
+  }
+  // legal holidays (tabulated for 2001..): every day of the first week of May and October and around the new year
+  let hy: Vec<i64> = if ctx.quick() { vec![2002, 2015, 2020, 2024] } else { (2001..2027).collect() };
+  for y in hy {
+    for (m, d0) in [(1i64, 1i64), (2, 1), (4, 1), (4, 25), (5, 1), (6, 5), (9, 10), (9, 25), (10, 1), (12, 28)] {
+      for k in 0..10 {
+        if let Some(d) = catch(|| SolarDay::from_ymd(y as isize, m as usize, d0 as usize).next(k)) {
           day(&mut sink, &mut rng, &d);
         }
       }
